@@ -1902,6 +1902,7 @@ impl C09 {
         };
         let max = l0 + 3 * limit;
         let gen = Gen::Hostile { prefix: Arc::new(prefix), unit: unit.to_vec(), pos: 0, max };
+        ctx.ev(19, l0, || format!("D begins: {} {:?}/{:?} L0={} limit={} chunk_max={}", doc.kind(), pos, kind, l0, limit, rcfg.chunk_max));
         ctx.reset_polls();
         let mut r = SimBufRead::new(ctx, gen, rcfg);
         let mark = heap_mark();
@@ -2069,6 +2070,10 @@ impl C09 {
             Section::Repeat { unit: unit.to_vec(), len: None },
         ];
         let gen = Gen::Sections { sections, pos: 0, max: e0 as u64 + 3 * limit };
+        ctx.ev(19, e0 as u64, || format!(
+            "D2 begins: {} element#{} at {}: {} bytes of white space in its start tag, {} bytes of valid content, then endless {}",
+            doc.kind(), which, e0, s1, s2, if in_end_tag { "white space inside its end tag".to_string() } else { format!("{:?} as content", kind) }
+        ));
         ctx.reset_polls();
         let mut r = SimBufRead::new(ctx, gen, rcfg);
         let streaming = !matches!(doc, Doc::Notification(_)) && ctx.chance(1, 2);
